@@ -1,6 +1,7 @@
 /-
   C07 — Retained text keeps its list/quote/pre nesting; data tables are kept whole.
 -/
+import Distill.Props.RenderProps
 import Distill.Proofs.Convert
 import Distill.Proofs.Retainer
 namespace Distill.C07
